@@ -239,6 +239,15 @@ fn sweep_synth(rec: &Recorder, thorough: bool) -> Tally {
                     // the v1 block encodes a different zone than the 64-bit block
                     let f = tzif::file(version, &other, Some(&main), Some(&footer));
                     check_file(&f, "v2+", rec, "synth", &mut tl);
+                    // the two headers carry different version bytes: the one in front of the 64-bit block governs the footer
+                    let hdr2 = 44 + tzif::body(&other, false).len();
+                    for second in [0u8, b'2', b'3'] {
+                        if second != version {
+                            let mut g = f.clone();
+                            g[hdr2 + 4] = second;
+                            check_file(&g, "v2+ with different version bytes in the two headers", rec, "synth", &mut tl);
+                        }
+                    }
                     if footer.len() == 4 && (thorough || (s.pool + s.ind + s.times) % 3 == 0) {
                         corruptions(&f, version, &other, Some(&main), rec, &mut tl);
                     }
@@ -427,6 +436,112 @@ fn corruptions(f: &[u8], version: u8, v1: &Block, v2: Option<&Block>, rec: &Reco
     }
 }
 
+/// every (designation index, designation length, pool length) combination: index 0..=255, length 0..=8 (0 = no designation,
+/// 8 = one more than allowed), the terminating NUL being the last octet of the pool, the last but one, or far from the end
+fn sweep_designations(rec: &Recorder) -> Tally {
+    let t = (0..256usize)
+        .into_par_iter()
+        .map(|idx| {
+            let mut tl = Tally::default();
+            for len in 0..=8usize {
+                for tail in [0usize, 1, 40] {
+                    let n = idx + len + 1 + tail;
+                    let mut chars: Vec<u8> = (0..n).map(|k| b'a' + (k % 26) as u8).collect();
+                    chars[idx + len] = 0;
+                    if tail > 0 {
+                        chars[n - 1] = 0;
+                    }
+                    let b = Block { trans: vec![(0, 1)], types: vec![(0, 0, idx as u8), (3600, 1, idx as u8)], chars, ..Default::default() };
+                    let f1 = tzif::file(0, &b, None, None);
+                    check_file(&f1, "designation position (v1)", rec, "designations", &mut tl);
+                    let small = Block { types: vec![(0, 0, 0)], chars: b"UTC\0".to_vec(), ..Default::default() };
+                    let f2 = tzif::file(b'2', &small, Some(&b), Some(b""));
+                    check_file(&f2, "designation position (v2)", rec, "designations", &mut tl);
+                }
+            }
+            tl
+        })
+        .reduce(Tally::default, Tally::merge);
+    rec.sub("designations", json!({"files": t.evals, "accepted": t.accepted, "rejected": t.rejected}));
+    t
+}
+
+/// header counts that violate the count rules while the block that follows is laid out exactly as those counts say (so that
+/// only the count check itself can refuse the file), in the first and in the second header
+fn sweep_header_counts(rec: &Recorder) -> Tally {
+    // (isutcnt, isstdcnt, leapcnt, timecnt, typecnt, charcnt)
+    let mut tuples: Vec<[u32; 6]> = vec![];
+    for typ in 0..=3u32 {
+        for chr in [0u32, 4] {
+            for isut in 0..=4u32 {
+                for isstd in 0..=4u32 {
+                    for (leap, time) in [(0u32, 0u32), (1, 0), (0, 2)] {
+                        tuples.push([isut, isstd, leap, time, typ, chr]);
+                    }
+                }
+            }
+        }
+    }
+    let raw = |version: u8, c: &[u32; 6], ts: usize| -> Vec<u8> {
+        let mut v = vec![];
+        v.extend_from_slice(b"TZif");
+        v.push(version);
+        v.extend_from_slice(&[0u8; 15]);
+        for x in c {
+            v.extend_from_slice(&x.to_be_bytes());
+        }
+        let (isut, isstd, leap, time, typ, chr) = (c[0] as usize, c[1] as usize, c[2] as usize, c[3] as usize, c[4] as usize, c[5] as usize);
+        for k in 0..time {
+            let t = 1000 * (k as i64 + 1);
+            if ts == 8 {
+                v.extend_from_slice(&t.to_be_bytes());
+            } else {
+                v.extend_from_slice(&(t as i32).to_be_bytes());
+            }
+        }
+        v.extend(std::iter::repeat(0u8).take(time));
+        for _ in 0..typ {
+            v.extend_from_slice(&[0, 0, 0, 0, 0, 0]);
+        }
+        v.extend(b"UTC\0".iter().cycle().take(chr));
+        for k in 0..leap {
+            let t = 78_796_800i64 + k as i64 * 28 * 86400;
+            if ts == 8 {
+                v.extend_from_slice(&t.to_be_bytes());
+            } else {
+                v.extend_from_slice(&(t as i32).to_be_bytes());
+            }
+            v.extend_from_slice(&(k as i32 + 1).to_be_bytes());
+        }
+        v.extend(std::iter::repeat(0u8).take(isstd + isut));
+        v
+    };
+    let good: [u32; 6] = [0, 0, 0, 0, 1, 4];
+    let t = tuples
+        .par_iter()
+        .map(|c| {
+            let mut tl = Tally::default();
+            // v1 file
+            check_file(&raw(0, c, 4), "header counts with matching layout (v1)", rec, "header_counts", &mut tl);
+            for version in [b'2', b'3'] {
+                // defect in the first header only
+                let mut f = raw(version, c, 4);
+                f.extend(raw(version, &good, 8));
+                f.extend_from_slice(b"\nUTC0\n");
+                check_file(&f, "first header counts with matching layout", rec, "header_counts", &mut tl);
+                // defect in the second header only
+                let mut f = raw(version, &good, 4);
+                f.extend(raw(version, c, 8));
+                f.extend_from_slice(b"\n\n");
+                check_file(&f, "second header counts with matching layout", rec, "header_counts", &mut tl);
+            }
+            tl
+        })
+        .reduce(Tally::default, Tally::merge);
+    rec.sub("header_counts", json!({"count_tuples": tuples.len(), "files": t.evals, "accepted": t.accepted, "rejected": t.rejected}));
+    t
+}
+
 /// model-side evaluation: does the footer rule, evaluated at the last transition, give a different type than the last transition?
 fn footer_disagrees_with_last_transition(bytes: &[u8]) -> bool {
     use refmodel::zone::{MRule, MType, MZone};
@@ -586,9 +701,11 @@ pub fn run(args: &Args) -> i32 {
     total = total.merge(sweep_corpus(&rec));
     total = total.merge(sweep_large(&rec, thorough));
     total = total.merge(sweep_corpus_mutations(&rec, thorough));
+    total = total.merge(sweep_designations(&rec));
+    total = total.merge(sweep_header_counts(&rec));
     rec.add(total.evals, total.corrupt);
     rec.digest("tzif", total.digest);
-    rec.set_rule("writer side: zones over {0,1,3} transitions x {1,2,3} types x {0,1,2} leap records x 4 designation pools (shared / overlapping / empty / unterminated tail) x 4 indicator layouts x 4 time sets (32/64-bit extremes) x footers, encoded v1/v2/v3 by an independent writer with a DIFFERENT zone in the 32-bit block of v2+ files; decoded zone must equal TimeZone::new(expected parts). reader side: every file of the fat and slim corpora decoded by an independent reader. reject side: every corruption class of the property on the synthesised files. non-trivial = corrupted files");
+    rec.set_rule("writer side: zones over {0,1,3} transitions x {1,2,3} types x {0,1,2} leap records x 4 designation pools (shared / overlapping / empty / unterminated tail) x 4 indicator layouts x 4 time sets (32/64-bit extremes) x footers, encoded v1/v2/v3 by an independent writer with a DIFFERENT zone in the 32-bit block of v2+ files; decoded zone must equal TimeZone::new(expected parts). reader side: every file of the fat and slim corpora decoded by an independent reader. reject side: every corruption class of the property on the synthesised files; header count tuples (0..=4 indicators, 0..=3 types, 0/4 chars) with a block laid out to match, in either header; every designation index 0..=255 x length 0..=8 x 3 pool tails; different version bytes in the two headers. non-trivial = corrupted files");
     rec.set_exhaustive(true);
     rec.outcome("accepted");
     rec.outcome("rejected");
